@@ -46,6 +46,7 @@ def run(tier):
         ]
     parts.append({'label': 'pretty-printed-running-orders', 'harness': HStory(pool=4, cap=3, max_list=1, rich=True, pretty_states=True, pretty_msgs=True,
                                                                                layouts=('between',)), 'monitors': [RoundTrip()], 'opts': {'max_depth': 1}})
+    parts.append({'label': 'other-envelope', 'harness': HMixed(envelope='trailing', init_shapes=[('A', 'AB'), ('AB', 'A', 'C')], layouts=('before',), max_list=1, story_L=1, meta_subsets=1, rich=True), 'monitors': [RoundTrip(bis, per_kind=2)], 'opts': {'max_depth': 0}})
     return runner.graph_check(
         'C14', tier, parts, rule=RULE, vacuity=vacuity,
         assumptions=['all messages are addressed to the running order\'s own roID',
